@@ -26,6 +26,7 @@ CONSTANTS N,          \* ring size (power of two)
           Final,      \* Seq(op) for thread 0
           Senders0,   \* set of initial sender handle names
           Recv0,      \* [initial receiver handle name -> stream name]
+          StreamSeq0, \* the initial streams in creation order (= order in the published list)
           RecordHist, \* keep the op history (behaviour generation) or not (exhaustive checking)
           MaxPre      \* bound on preemptions when RecordHist
 
@@ -54,7 +55,7 @@ Init ==
             refcnt |-> [i \in 0..N-1 |-> 0],
             pos |-> [s \in InitStreams |-> 0],
             ncons |-> [s \in InitStreams |-> Cardinality({h \in DOMAIN Recv0 : Recv0[h] = s})],
-            gptr |-> 0, groups |-> (0 :> SetToSeq(InitStreams)), nextg |-> 1,
+            gptr |-> 0, groups |-> (0 :> StreamSeq0), nextg |-> 1,
             noR |-> FALSE, lock |-> -1, cvw |-> {}, woken |-> {}]
   /\ hnd = [h \in Senders0 \cup DOMAIN Recv0 |->
               IF h \in Senders0
@@ -284,7 +285,7 @@ IsView(t) == L(t).op = "view"
 
 RSig(t) == /\ PC(t) = "r_sig"
            /\ Emit(t, "load", "signal", IF mem.noR THEN 2 ELSE 0, TRUE)
-           /\ Goto(t, IF hnd[H(t)].st = "Multi" THEN "r_la" ELSE "r_pos")
+           /\ Goto(t, IF IsView(t) THEN (IF hnd[H(t)].st = "Multi" THEN "r_la" ELSE "r_pos") ELSE "r_single")
            /\ Ghost(t) /\ UNCHANGED <<mem, hnd>>
 
 RLa(t) == /\ PC(t) = "r_la"
@@ -299,13 +300,14 @@ RLaF(t) == /\ PC(t) = "r_laf"
 
 RPos(t) == /\ PC(t) = "r_pos"
            /\ Emit(t, "load", PosLoc(S(t)), mem.pos[S(t)], TRUE)
-           /\ Go(t, IF IsView(t) THEN "r_tag" ELSE "r_single",
-                 [L(t) EXCEPT !.p = mem.pos[S(t)], !.astate = hnd[H(t)].st, !.single = IsView(t)])
+           /\ Go(t, "r_tag",
+                 [L(t) EXCEPT !.p = mem.pos[S(t)], !.astate = hnd[H(t)].st, !.single = (IsView(t) \/ @)])
            /\ Ghost(t) /\ UNCHANGED <<mem, hnd>>
 
+\* "am I alone on this stream" is decided before the cursor is loaded
 RSingle(t) == /\ PC(t) = "r_single"
               /\ Emit(t, "load", NcLoc(S(t)), mem.ncons[S(t)], TRUE)
-              /\ Go(t, "r_tag", [L(t) EXCEPT !.single = (mem.ncons[S(t)] = 1)])
+              /\ Go(t, IF hnd[H(t)].st = "Multi" THEN "r_la" ELSE "r_pos", [L(t) EXCEPT !.single = (mem.ncons[S(t)] = 1)])
               /\ Ghost(t) /\ UNCHANGED <<mem, hnd>>
 
 \* the value is read (move-out) or the clone/view begins right after the deciding load
@@ -441,7 +443,7 @@ Chk2(t, from, yes, no) == /\ PC(t) = from
                           /\ Ghost(t) /\ UNCHANGED <<mem, hnd>>
 
 BC1(t) == Chk1(t, "b_c1", "b_c2")
-BC2(t) == Chk2(t, "b_c2", "r_again", "b_c1")
+BC2(t) == Chk2(t, "b_c2", "r_single", "b_c1")
 
 BwLock(t) == /\ PC(t) = "bw_lock" /\ mem.lock = -1
              /\ Emit(t, "lock", "waitlock", "*", TRUE)
@@ -452,7 +454,7 @@ BwC2(t) == Chk2(t, "bw_c2", "bw_unlock_ret", "bw_wait")
 BwUnlockRet(t) == /\ PC(t) = "bw_unlock_ret"
                   /\ Emit(t, "unlock", "waitlock", "*", TRUE)
                   /\ mem' = [mem EXCEPT !.lock = -1]
-                  /\ Goto(t, "r_again") /\ Ghost(t) /\ UNCHANGED hnd
+                  /\ Goto(t, "r_single") /\ Ghost(t) /\ UNCHANGED hnd
 BwWait(t) == /\ PC(t) = "bw_wait"
              /\ Emit(t, "cvwait", "waitcv", "*", TRUE)
              /\ mem' = [mem EXCEPT !.lock = -1, !.cvw = @ \cup {t}]
@@ -466,18 +468,7 @@ BwUnlock(t) == /\ PC(t) = "bw_unlock"
                /\ mem' = [mem EXCEPT !.lock = -1]
                /\ Goto(t, "bw_c3") /\ Ghost(t) /\ UNCHANGED hnd
 BwC3(t) == Chk1(t, "bw_c3", "bw_c4")
-BwC4(t) == Chk2(t, "bw_c4", "r_again", "bw_lock")
-
-\* back to the top of recv's loop: the next op is the first op of try_recv (no signal load)
-RAgain(t) ==
-  /\ PC(t) = "r_again"
-  /\ IF hnd[H(t)].st = "Multi"
-     THEN /\ Emit(t, "load", NcLoc(S(t)), mem.ncons[S(t)], TRUE)
-          /\ Goto(t, IF mem.ncons[S(t)] = 1 THEN "r_laf" ELSE "r_pos")
-     ELSE /\ Emit(t, "load", PosLoc(S(t)), mem.pos[S(t)], TRUE)
-          /\ Go(t, IF IsView(t) THEN "r_tag" ELSE "r_single",
-                [L(t) EXCEPT !.p = mem.pos[S(t)], !.astate = hnd[H(t)].st, !.single = IsView(t)])
-  /\ Ghost(t) /\ UNCHANGED <<mem, hnd>>
+BwC4(t) == Chk2(t, "bw_c4", "r_single", "bw_lock")
 
 (* ------------------------------------------------------------------ add_stream *)
 AGp(t) == /\ PC(t) = "a_gp"
@@ -580,7 +571,7 @@ Step(t) ==
   \/ RSig(t) \/ RLa(t) \/ RLaF(t) \/ RPos(t) \/ RSingle(t) \/ RTag(t) \/ RWr(t) \/ RWrF(t) \/ RTag2(t)
   \/ RDchk(t) \/ RPin(t) \/ RRecheck(t) \/ RUnpin(t) \/ RReload(t) \/ RPy(t) \/ RFence(t) \/ RCommit(t)
   \/ VCommit(t) \/ BCnt(t) \/ BC1(t) \/ BC2(t) \/ BwLock(t) \/ BwC1(t) \/ BwC2(t) \/ BwUnlockRet(t)
-  \/ BwWait(t) \/ BwWake(t) \/ BwUnlock(t) \/ BwC3(t) \/ BwC4(t) \/ RAgain(t)
+  \/ BwWait(t) \/ BwWake(t) \/ BwUnlock(t) \/ BwC3(t) \/ BwC4(t)
   \/ AGp(t) \/ ARaw(t) \/ AF1(t) \/ ACas(t) \/ AF2(t) \/ AF3(t)
   \/ CsAdd(t) \/ CrAdd(t) \/ DsSub(t) \/ DsF(t) \/ DrSub(t) \/ DrGp(t) \/ DrLp(t) \/ DrSet(t) \/ DrCas(t)
   \/ DrF1(t) \/ DrHas(t) \/ DrF(t)
